@@ -94,6 +94,44 @@ def dedupAddrs : List Addr → List Addr → List Addr
 def addrUniverse (c : Config) : List Addr :=
   dedupAddrs ((c.servers.flatMap (·.listen)) ++ (c.servers.flatMap fun s => s.listen.map (redirAddr c))) []
 
+/-! ### what a plain HTTP request gets -/
+
+/-- the answer of the compiled route list to a plain-HTTP request -/
+inductive Served where
+  | user (id : Nat)      -- the user's route `id` (its terminal handler answers)
+  | redir (port : Nat)   -- 308 to `https://{host}[:port]{uri}`, `Connection: close`
+  | nothing              -- no route matched: the empty handler
+deriving DecidableEq, Repr
+
+/-- user route `id` of a server with routes `us` matches a request for host `d`
+    (`none` = a host no pattern matches): it has no host matcher, or one of its host matchers
+    (one per matcher set, OR-ed) has a pattern that matches -/
+def userMatches (P : Params) (us : List URoute) (id : Nat) (d : Option Name) : Bool :=
+  match us[id]? with
+  | some r =>
+    r.hms.isEmpty ||
+    (match d with
+     | some d => r.hms.any fun hm => hm.any fun p => P.hm d p
+     | none => false)
+  | none => false
+
+def routeServes (P : Params) (us : List URoute) (d : Option Name) : Route → Option Served
+  | .user id _ => if userMatches P us id d then some (.user id) else none
+  | .redir none p => some (.redir p)
+  | .redir (some hs) p =>
+    match d with
+    | some d => if hs.any (fun q => P.hm d q) then some (.redir p) else none
+    | none => none
+
+/-- `Server.ServeHTTP` on the route list: the first route whose matchers accept the request
+    (user routes end in a terminal handler; redirect routes match protocol http + host list) -/
+def serve (P : Params) (us : List URoute) (d : Option Name) : List Route → Served
+  | [] => .nothing
+  | r :: rs =>
+    match routeServes P us d r with
+    | some a => a
+    | none => serve P us d rs
+
 /-! ### spec predicates -/
 
 /-- `getAutomationPolicyForName`: the first policy without subjects or with a matching one -/
